@@ -92,14 +92,18 @@ pub const C10_ENTRIES: &[&str] = &[
     "RefRecord::write",
     "RefRecord::write_wrap",
     "write_head+write_wrap_seq_iter",
+    "write_head+write_seq_iter(filter)",
+    "write_head+write_wrap_seq_iter(filter)",
+    "RefRecord(CRLF source)::write",
+    "RefRecord(CRLF source)::write_wrap",
 ];
 
 fn entry_wrapped(e: u8) -> bool {
-    matches!(e, 2 | 4 | 6 | 8 | 10 | 11)
+    matches!(e, 2 | 4 | 6 | 8 | 10 | 11 | 13 | 15)
 }
 
 fn entry_chunked(e: u8) -> bool {
-    matches!(e, 5 | 6 | 9 | 10 | 11)
+    matches!(e, 5 | 6 | 9 | 10 | 11 | 12 | 13 | 14 | 15)
 }
 
 /// write one record through entry point `e` into `w`
@@ -130,22 +134,32 @@ fn write_c10(r: &WRec, e: u8, w: &mut SimSink) -> std::io::Result<()> {
         }
         7 => fasta::OwnedRecord { head: r.head.clone(), seq: r.seq.clone() }.write(&mut *w),
         8 => fasta::OwnedRecord { head: r.head.clone(), seq: r.seq.clone() }.write_wrap(&mut *w, width),
-        9 | 10 => {
-            // a RefRecord whose sequence lines are the chunks
+        9 | 10 | 14 | 15 => {
+            // a RefRecord whose sequence lines are the chunks (LF or CRLF source text)
+            let t: &[u8] = if e >= 14 { b"\r\n" } else { b"\n" };
             let mut src = vec![b'>'];
             src.extend_from_slice(&r.head);
-            src.push(b'\n');
+            src.extend_from_slice(t);
             for c in &chunks {
                 src.extend_from_slice(c);
-                src.push(b'\n');
+                src.extend_from_slice(t);
             }
             let mut rd = fasta::Reader::new(&src[..]);
             let rec = rd.next().expect("source record").expect("valid source record");
-            if e == 9 {
+            if e == 9 || e == 14 {
                 rec.write(&mut *w)
             } else {
                 rec.write_wrap(&mut *w, width)
             }
+        }
+        12 => {
+            // an iterator without exact size (lower size-hint bound 0)
+            fasta::write_head(&mut *w, &r.head)?;
+            fasta::write_seq_iter(&mut *w, chunks.iter().copied().filter(|_| true))
+        }
+        13 => {
+            fasta::write_head(&mut *w, &r.head)?;
+            fasta::write_wrap_seq_iter(&mut *w, chunks.iter().copied().filter(|_| true), width)
         }
         _ => {
             fasta::write_head(&mut *w, &r.head)?;
@@ -303,7 +317,7 @@ pub fn run_c10(s: &C10Scn, st: &mut Stats) -> RunResult {
         } else {
             for (i, (g, r)) in got.iter().zip(&s.recs).enumerate() {
                 if g.head != r.head || g.seq != r.seq {
-                    v.push(Violation::new("C10.roundtrip", format!("record {} via {}: wrote head {:?} seq {:?}, parsed head {:?} seq {:?}", i, C10_ENTRIES[(r.entry % 12) as usize], show(&r.head), show(&r.seq), show(&g.head), show(&g.seq))));
+                    v.push(Violation::new("C10.roundtrip", format!("record {} via {}: wrote head {:?} seq {:?}, parsed head {:?} seq {:?}", i, C10_ENTRIES[(r.entry as usize) % C10_ENTRIES.len()], show(&r.head), show(&r.seq), show(&g.head), show(&g.seq))));
                     break;
                 }
             }
@@ -390,7 +404,7 @@ impl Check for C10 {
         out.into_iter().map(|x| serde_json::to_value(x).unwrap()).collect()
     }
     fn rule_text(&self) -> String {
-        "1..6 records (header without LF not ending in CR incl. non-UTF-8 bytes; sequence without LF/CR/'>' incl. empty; width 1, == length, a divisor of the length, or random; 0..10 chunk boundaries incl. empty chunks and boundaries exactly at line ends), each written through one of 12 entry points (write_to, write_parts, write_wrap, write_head+write_seq / write_wrap_seq / write_seq_iter / write_wrap_seq_iter, write_id_desc+..., OwnedRecord::write/write_wrap, RefRecord::write/write_wrap) into a SimSink with short writes and Interrupted. Oracle: bytes independent of the sink script; header line; wrapped shape; whole vs chunked identical for non-empty sequences; everything re-parsed through the real fasta::Reader over a SimSource with random capacity/chunking equals what was written. Weak fit: apart from the sink/source seams this is a pure function of (head, seq, width, chunking). distinct_nontrivial counts distinct (output bytes, sink script).".into()
+        "1..6 records (header without LF not ending in CR incl. non-UTF-8 bytes; sequence without LF/CR/'>' incl. empty; width 1, == length, a divisor of the length, or random; 0..10 chunk boundaries incl. empty chunks and boundaries exactly at line ends), each written through one of 16 entry points (write_to, write_parts, write_wrap, write_head+write_seq / write_wrap_seq / write_seq_iter / write_wrap_seq_iter with exact-size and with filter() iterators, write_id_desc+..., OwnedRecord::write/write_wrap, RefRecord::write/write_wrap on records parsed from LF and from CRLF text) into a SimSink with short writes and Interrupted. Oracle: bytes independent of the sink script; header line; wrapped shape; whole vs chunked identical for non-empty sequences; everything re-parsed through the real fasta::Reader over a SimSource with random capacity/chunking equals what was written. Weak fit: apart from the sink/source seams this is a pure function of (head, seq, width, chunking). distinct_nontrivial counts distinct (output bytes, sink script).".into()
     }
     fn assumptions(&self) -> Vec<String> {
         vec!["no schedule or crash in this property; the simulator contributes the sink seam and the re-read through the source seam".into()]
@@ -460,10 +474,23 @@ pub fn gen_c11(rng: &Rng, tier: Tier) -> C11Scn {
     if rng.chance(2, 5) {
         let n = 1 + rng.small(5);
         let mut recs = vec![];
+        // now and then records of a few hundred bytes (fixed-size scratch buffers, size estimates)
+        let big = rng.chance(1, 5);
         for _ in 0..n {
-            let seq = gen_wseq(rng, 30);
+            let seq = if big { (0..rng.range(30, 150)).map(|_| *rng.pick(b"ACGTN")).collect() } else { gen_wseq(rng, 30) };
             let qual: Vec<u8> = seq.iter().map(|_| if rng.chance(1, 8) { *rng.pick(b"@+>") } else { *rng.pick(b"IJF#5!~") }).collect();
-            recs.push(QRec { head: gen_head(rng, 14, true), seq, qual, entry: rng.below(4) as u8 });
+            let head = if big {
+                let mut h = gen_head(rng, 14, true);
+                h.push(b' ');
+                h.extend((0..rng.range(0, 120)).map(|_| *rng.pick(b"abc xyz019")));
+                while h.last() == Some(&b'\r') {
+                    h.pop();
+                }
+                h
+            } else {
+                gen_head(rng, 14, true)
+            };
+            recs.push(QRec { head, seq, qual, entry: if big { rng.below(2) as u8 * rng.below(2) as u8 + rng.below(2) as u8 } else { rng.below(4) as u8 } });
         }
         let total: usize = recs.iter().map(|r| r.head.len() + 2 * r.seq.len() + 6).sum();
         let cfg = gen_cfg(rng, &vec![b'A'; total], true);
@@ -719,11 +746,23 @@ pub struct C18Scn {
     /// k >= 2: (k-1) next() calls, then one read_record_set(), repeated
     #[serde(default)]
     pub set_mode: usize,
+    /// every `small_every`-th record (if > 0) has `small_len` sequence characters per line instead
+    /// of `line_len` ("records that are no larger" need not be equally large)
+    #[serde(default)]
+    pub small_every: usize,
+    #[serde(default)]
+    pub small_len: usize,
     pub warm: usize,
     pub window: usize,
 }
 
 fn c18_record(s: &C18Scn, i: usize) -> Vec<u8> {
+    if s.small_every > 0 && i % s.small_every == s.small_every - 1 {
+        let mut z = s.clone();
+        z.small_every = 0;
+        z.line_len = s.small_len;
+        return c18_record(&z, i);
+    }
     let t: &[u8] = if s.crlf { b"\r\n" } else { b"\n" };
     let mut v = vec![];
     let id = format!("{:0width$}", i % 10usize.pow(s.head_len.min(9) as u32).max(1), width = s.head_len.max(1));
@@ -768,6 +807,8 @@ pub fn gen_c18(rng: &Rng, tier: Tier) -> C18Scn {
             2 => 1,
             _ => rng.range(2, 5),
         },
+        small_every: 0,
+        small_len: 0,
         warm: rng.range(4, 40),
         window: match tier {
             Tier::Quick => rng.range(50, 400),
@@ -775,6 +816,17 @@ pub fn gen_c18(rng: &Rng, tier: Tier) -> C18Scn {
         },
     };
     let rl = c18_record(&s, 0).len();
+    if rng.chance(1, 4) {
+        // mixed sizes: mostly records that nearly fill the buffer, now and then a tiny one
+        s.n_lines = s.n_lines.max(1);
+        s.line_len = rng.range(20, 120);
+        s.small_every = rng.range(2, 7);
+        s.small_len = rng.range(0, 2);
+        let big = c18_record(&s, 0).len();
+        s.cap = big + rng.range(2, 6);
+        s.warm = s.warm.max(4 * s.small_every + 6);
+        return s;
+    }
     // capacity >= 2 records so that growth is never needed after the first fill
     let per_buf = rng.range(2, 6);
     s.cap = (rl * per_buf + rng.range(1, rl)).max(3);
@@ -787,7 +839,8 @@ pub fn gen_c18(rng: &Rng, tier: Tier) -> C18Scn {
 
 pub fn run_c18(s: &C18Scn, st: &mut Stats) -> RunResult {
     let mut v: Vec<Violation> = vec![];
-    let per_call = if s.sets && s.set_mode != 1 { (s.cap / c18_record(s, 0).len().max(1)).max(1) } else { 1 };
+    let min_rec = (0..s.small_every.max(1)).map(|i| c18_record(s, i).len()).min().unwrap_or(1).max(1);
+    let per_call = if s.sets && s.set_mode != 1 { (s.cap / min_rec).max(1) + 1 } else { 1 };
     let n_records = (s.warm.max(3 * s.set_mode) + s.window + 4) * per_call + 8;
     let mut input = Vec::with_capacity(n_records * c18_record(s, 0).len());
     for i in 0..n_records {
